@@ -313,7 +313,13 @@ let agent_suite () =
           (match parse_obs il (if n > 2 then String.sub line 2 (n - 2) else "") !prev with
            | None -> List.iter (fun k -> emit (Printf.sprintf "S %d 0 C%02d unparsable" i k)) [3]
            | Some (o, key) ->
-             if not (mon_C13_ltkey cc st.ma_lt mo o) then emit (Printf.sprintf "S %d 0 C13 lt-integrity-key" i);
+             if not (mon_C13_ltkey cc st.ma_lt mo o) then begin
+               emit (Printf.sprintf "S %d 0 C13 lt-integrity-key" i);
+               (* C08: "an integrity attribute (SHA-256 if algorithms were offered, otherwise SHA-1) that verifies under the key
+                  derived from user, realm and password": judged here as well, because the 9.2.4 server verdict of mon_C08 stops
+                  at the missing algorithm attributes of the known finding D7 before it looks at the integrity kind *)
+               emit (Printf.sprintf "S %d 0 C08 lt-integrity-key" i)
+             end;
              if not (mon_C13_ltcred cc st.ma_lt mo o) then emit (Printf.sprintf "S %d 0 C13 lt-credential-attributes" i);
              let (s', vs) = monitor_step c cc st mo o in
              ms := Some s'; prev := Some key;
